@@ -41,6 +41,10 @@ impl LabelMap {
 pub struct RouterMap { pub calls: Ghost<Seq<(usize, Seq<u8>)>> }
 impl RouterMap {
   #[verifier::external_body]
+  pub async fn add_peer(&mut self, identity: Blob, pipe_read_id: usize, uri: String) -> (r: ())
+    ensures final(self).calls@ == old(self).calls@.push((pipe_read_id, identity@))
+  { unimplemented!() }
+  #[verifier::external_body]
   pub async fn update_peer_identity(&mut self, pipe_read_id: usize, identity: Blob, uri: &String, peer_type: Option<&str>) -> (r: ())
     ensures final(self).calls@ == old(self).calls@.push((pipe_read_id, identity@))
   { unimplemented!() }
@@ -65,7 +69,26 @@ impl RouterSocket {
   // R8: the block that reads core_state (endpoint uri of the pipe, the peer's socket type): arbitrary result
   #[verifier::external_body]
   pub fn verif_lookup_endpoint(&self, pipe_read_id: usize) -> (Option<String>, Option<String>) { unimplemented!() }
+  // R8 (pipe_attached): the block that reads core_state (endpoint uri of the pipe, connection id): arbitrary result
+  #[verifier::external_body]
+  pub fn verif_lookup_conn(&self, pipe_read_id: usize) -> (r: (Option<String>, Option<usize>))
+    ensures (match r.0 { Some(u) => endpoint_of(pipe_read_id) == Some(u@), None => endpoint_of(pipe_read_id) is None })
+  { unimplemented!() }
+  // R8 (pipe_attached): coordinator / ingress-channel registration of the new pipe (units lb, anon): no access to labels or gate
+  #[verifier::external_body]
+  pub async fn verif_register_channels(&self, pipe_read_id: usize) -> (r: ()) { unimplemented!() }
 }
+// R8: Blob::from_bytes(Bytes::copy_from_slice(s))
+#[verifier::external_body]
+pub fn verif_blob_from_slice(s: &[u8]) -> (r: Blob) ensures r@ == s@ { unimplemented!() }
+pub uninterp spec fn is_inproc_uri(u: Seq<char>) -> bool;
+// the endpoint uri core_state records for the pipe at the one time pipe_attached reads it
+pub uninterp spec fn endpoint_of(pid: usize) -> Option<Seq<char>>;
+// R8: String::starts_with("inproc://")
+#[verifier::external_body]
+pub fn verif_is_inproc(u: &String) -> (r: bool) ensures r == is_inproc_uri(u@) { unimplemented!() }
+pub open spec fn attach_label(pid: usize, id: Option<&[u8]>) -> Seq<u8> { match id { Some(b) => if b@.len() != 0 { b@ } else { placeholder(pid) }, None => placeholder(pid) } }
+pub open spec fn real_identity(id: Option<&[u8]>) -> bool { id matches Some(b) && b@.len() != 0 }
 // R8: Option<String>::as_deref
 #[verifier::external_body]
 pub fn verif_as_deref(o: &Option<String>) -> Option<&str> { unimplemented!() }
@@ -99,5 +122,29 @@ parts = [
      ]),
 ]
 
+parts.append(
+  Fn(RS, "pipe_attached", impl=r"impl\s+ISocket\s+for\s+RouterSocket\b", emit_impl="impl RouterSocket", sig_sub=[("&self", "&mut self")], ret=None,
+     extra=[
+       ("R8", re.compile(r"let \(endpoint_uri_opt, connection_id_opt\) = \{.*?\n    \};", re.S), "let (endpoint_uri_opt, connection_id_opt) = self.verif_lookup_conn(pipe_read_id);", 1),
+       ("R8", "Blob::from_bytes(Bytes::copy_from_slice(id_bytes))", "verif_blob_from_slice(id_bytes)", 1),
+       ("R8", 'endpoint_uri.starts_with("inproc://")', "verif_is_inproc(&endpoint_uri)", 1),
+       ("R8", re.compile(r"self\.pipe_send_coordinator\.add_pipe\(pipe_read_id\)\.await;.*?self\.pending_pipe_senders\.lock\(\)\.insert\(pipe_read_id, sender\);", re.S), "self.verif_register_channels(pipe_read_id).await;", 1),
+       ("R8", "matches!(peer_identity_opt, Some(id) if !id.is_empty())", "(match peer_identity_opt { Some(id) => !id.is_empty(), None => false })", 1),
+     ],
+     ensures=[
+       ("C11:at_attach_a_pipe_passes_the_identity_gate_only_with_a_real_identity_or_on_inproc_and_no_other_pipe_does",
+        "final(self).finalized@ == old(self).finalized@ || (final(self).finalized@ == old(self).finalized@.insert(pipe_read_id) "
+        "&& final(self).finalize_log@.len() == old(self).finalize_log@.len() + 1 && final(self).finalize_log@.last().0 == pipe_read_id "
+        "&& final(self).finalize_log@.last().1 == final(self).pipe_to_identity_shared_map@ && final(self).pipe_to_identity_shared_map@.contains_key(pipe_read_id) "
+        "&& (real_identity(peer_identity_opt) || (endpoint_of(pipe_read_id) matches Some(u) && is_inproc_uri(u))))"),
+       ("C11:a_real_identity_known_at_attach_is_never_left_waiting_behind_the_gate",
+        "real_identity(peer_identity_opt) && final(self).pipe_to_identity_shared_map@ != old(self).pipe_to_identity_shared_map@ ==> final(self).finalized@.contains(pipe_read_id)"),
+       ("C11:the_label_is_the_announced_identity_or_this_pipes_placeholder_and_no_other_label_is_touched",
+        "(final(self).router_map_for_send.calls@ == old(self).router_map_for_send.calls@ && final(self).pipe_to_identity_shared_map@ == old(self).pipe_to_identity_shared_map@ && final(self).finalized@ == old(self).finalized@) "
+        "|| (final(self).router_map_for_send.calls@ == old(self).router_map_for_send.calls@.push((pipe_read_id, attach_label(pipe_read_id, peer_identity_opt))) "
+        "    && final(self).pipe_to_identity_shared_map@ == old(self).pipe_to_identity_shared_map@.insert(pipe_read_id, attach_label(pipe_read_id, peer_identity_opt)))"),
+       ("C11:gate_invariant_preserved_no_finalized_pipe_without_identity_label", "old(self).gate_inv() ==> final(self).gate_inv()"),
+     ]))
+
 FNS = {p.name: p for p in parts if isinstance(p, Fn)}
-unit = Unit("routerident", ["C11"], parts, safety_props=["C11"], notes="ROUTER update_peer_identity: label before gate, announced identity or own placeholder")
+unit = Unit("routerident", ["C11"], parts, safety_props=["C11"], notes="ROUTER pipe_attached / update_peer_identity: label before gate, announced identity or own placeholder")
